@@ -435,6 +435,110 @@ def parsing_interrupt(chk, W, env, sig):
     chk.count("cli_interrupted_between_invocations")
 
 
+SHIM_SRC = '''import builtins, runpy, sys
+_open = builtins.open
+def guarded(f, mode="r", *a, **k):
+    # the stand-in runs the start-up step unprivileged and never changes the machine: writes under /sys and /proc/sys are refused
+    if isinstance(f, str) and (f.startswith("/sys") or f.startswith("/proc/sys")) and any(c in mode for c in "wa+"):
+        raise PermissionError(13, "Permission denied", f)
+    return _open(f, mode, *a, **k)
+builtins.open = guarded
+sys.argv = sys.argv[1:]
+import os
+sys.path[0] = os.path.dirname(os.path.abspath(sys.argv[0]))     # as if the script had been started directly
+runpy.run_path(sys.argv[0], run_name="__main__")
+'''
+
+
+def real_startup_part(chk):
+    """the REAL start-up step (the tree's denoise.py, run unprivileged by a stand-in sudo) against stand-in `cset` and `nice`
+    that grant or refuse: every benchmark command is wrapped with exactly what was granted"""
+    W = setup_dir(with_sudo=False)
+    try:
+        b = os.path.join(W, "bin")
+        with open(os.path.join(W, "shim.py"), "w") as f:
+            f.write(SHIM_SRC)
+        with open(os.path.join(b, "sudo"), "w") as f:
+            f.write("#!/bin/sh\nprintf 'SUDO %%s\\n' \"$*\" >> '%s/sudo.log'\n"
+                    "while [ \"${1#-}\" != \"$1\" ]; do shift; done\n"
+                    "PYTHONPATH='%s' exec '%s' '%s/shim.py' \"$@\"\n" % (W, core.REPO, core.PY, W))
+        with open(os.path.join(b, "cset"), "w") as f:
+            f.write("#!/bin/sh\nprintf 'CSET %%s\\n' \"$*\" >> '%s/cset.log'\nmode=$(cat '%s/cset.mode')\n"
+                    "case \"$*\" in\n"
+                    "  --help) exit 0;;\n"
+                    "  \"shield --exec -- \"*) shift; shift; shift; exec \"$@\";;\n"
+                    "  \"shield -r\") echo 'cset: done'; exit 0;;\n"
+                    "  shield*) case $mode in grant) echo 'cset: --> activating shielding:'; echo 'cset: kthread shield activated, moving 10 tasks into system cpuset...';;\n"
+                    "                       denied) echo 'cset: **> Permission denied';; silent) echo 'cset: nothing said';; esac; exit 0;;\n"
+                    "esac\nexit 0\n" % (W, W))
+        with open(os.path.join(b, "nice"), "w") as f:
+            f.write("#!/bin/sh\nprintf 'NICE %%s\\n' \"$*\" >> '%s/nice.log'\nmode=$(cat '%s/nice.mode')\nshift\n"
+                    "if [ \"$mode\" = refused ]; then echo 'nice: cannot set niceness: Permission denied'; fi\nexec \"$@\"\n" % (W, W))
+        for n_ in ("sudo", "cset", "nice"):
+            os.chmod(os.path.join(b, n_), 0o755)
+        cli.write_fake_harness(W)
+        raw = {"default_data_file": "r.data", "executors": {"E": {"executable": core.PY, "args": "-S " + os.path.join(W, "harness.py"),
+                                                                "env": {"PATH": b + ":/usr/bin:/bin"}}},
+               "benchmark_suites": {"S": {"gauge_adapter": "RebenchLog", "command": "%(benchmark)s %(invocation)s", "benchmarks": ["Ba"]}},
+               "experiments": {"X": {"executions": [{"E": {"suites": ["S"]}}]}}, "runs": {"invocations": 2}}
+        cli.write_yaml(os.path.join(W, "r.yaml"), raw)
+        env = cli.base_env(W, {"PATH": b + ":/usr/local/bin:/usr/bin:/bin"})
+        n = 0
+        for cset_mode in ("grant", "denied", "silent", "absent"):
+            for nice_mode in ("ok", "refused"):
+                for p_ in ("sudo.log", "cset.log", "nice.log", "r.data", "starts.log", "events.log"):
+                    if os.path.exists(os.path.join(W, p_)):
+                        os.remove(os.path.join(W, p_))
+                open(os.path.join(W, "cset.mode"), "w").write(cset_mode)
+                open(os.path.join(W, "nice.mode"), "w").write(nice_mode)
+                if cset_mode == "absent":
+                    os.rename(os.path.join(b, "cset"), os.path.join(W, "cset.off"))
+                try:
+                    cli.set_script(W, {})
+                    p = cli.popen_rebench(["r.yaml"], W, env=env)
+                    try:
+                        so, se = p.communicate(timeout=120)
+                    except subprocess.TimeoutExpired:
+                        p.kill()
+                        so, se = p.communicate()
+                finally:
+                    if cset_mode == "absent":
+                        os.rename(os.path.join(W, "cset.off"), os.path.join(b, "cset"))
+                case = dict(cset=cset_mode, nice=nice_mode, start_up_step="the tree's denoise.py, run by a stand-in sudo")
+                sudo = [l[5:] for l in open(os.path.join(W, "sudo.log"))] if os.path.exists(os.path.join(W, "sudo.log")) else []
+                cset = [l[5:] for l in open(os.path.join(W, "cset.log"))] if os.path.exists(os.path.join(W, "cset.log")) else []
+                execs = [l for l in sudo if " exec -- " in l]
+                shield_granted, nice_granted = cset_mode == "grant", nice_mode == "ok"
+                nstarts = len(open(os.path.join(W, "starts.log")).read().splitlines()) if os.path.exists(os.path.join(W, "starts.log")) else 0
+                if cli.has_traceback(so, se) or p.returncode not in (0,):
+                    chk.violation("C20 a session with the real start-up step ends normally whatever cset and nice answer", case, 0,
+                                  dict(rc=p.returncode, err=se[-600:]))
+                elif nstarts != 2:
+                    chk.violation("C20 the benchmark is executed whatever cset and nice answer", case, 2, nstarts)
+                else:
+                    for l in execs:
+                        if ("--without-shielding" in l) != (not shield_granted) or ("--without-nice" in l) != (not nice_granted):
+                            chk.violation("C20 a benchmark command is wrapped with exactly the capabilities that were granted", case,
+                                          dict(shielding=shield_granted, nice=nice_granted), l.strip())
+                            break
+                    if not (shield_granted or nice_granted) and execs:
+                        chk.violation("C20 no wrapper at all when neither nice nor shielding was granted", case, [], execs[:2])
+                    if (shield_granted or nice_granted) and len(execs) != 2:
+                        chk.violation("C20 every benchmark command goes through the wrapper when something was granted", case, 2, len(execs))
+                    if any("shield --exec" in l for l in cset) != shield_granted:
+                        chk.violation("C20 a benchmark runs inside the shield iff the shield was granted", case, shield_granted,
+                                      [l.strip() for l in cset])
+                    restores = [l for l in sudo if " restore" in l]
+                    if len(restores) != 1 or sudo.index(restores[0]) != len(sudo) - 1:
+                        chk.violation("C20 the restore step is invoked exactly once, last (real start-up step)", case, "one, last",
+                                      [l.strip()[-60:] for l in sudo])
+                n += 1
+                chk.case(("real-startup", cset_mode, nice_mode))
+        chk.count("sessions_with_the_real_start_up_step", n)
+    finally:
+        shutil.rmtree(W, ignore_errors=True)
+
+
 TOKEN_NAMES = {0: "sudo", 2: "DENOISE", 3: "--without-nice", 4: "--without-shielding", 5: "--cset-path", 6: "--for-profiling", 8: "exec"}
 
 
@@ -444,6 +548,7 @@ def run(chk):
     in_process_part(chk, exprs)
     shield_part(chk, exprs)
     cli_part(chk)
+    real_startup_part(chk)
     try:
         res = core.coq_eval(IMPORTS, [e[3] for e in exprs], chk.scratch, chunk=60)
     except core.BuildError as exc:
